@@ -863,8 +863,11 @@ def validate_traces(ck, traces, dev):
                 memo.setdefault(u["key"], u["mraw"] if dev else u["raw"])
         explain_event(ck, tr, e, tr["events"][e - 1], dev, memo)
         rejected += 1
-        todo = todo[t:]
-        if rejected >= 4:
+        # go on behind the rejected event (what the mutation of a table or cached object does to later results is
+        # reported as well), then with the other histories
+        rest = tr["events"][e:]
+        todo = ([{"label": tr["label"] + " (continued after event %d)" % e, "events": rest}] if rest else []) + todo[t:]
+        if rejected >= 6:
             break
     ck.extra["recorded_histories_rejected"] = rejected
     # vacuity of the trace spec: a corrupted field must be rejected at that event
